@@ -107,6 +107,16 @@ def name_is(path, *suffixes):
     return False
 
 
+def upvar_of(body, t):
+    """Name of the captured variable a closure-body term refers to (`(*_1.N)`), else None."""
+    t = strip_wrappers(t)
+    if t[0] == "pl" and t[1][0] == "arg" and t[1][1] == 1:
+        fs = [e for e in t[2] if isinstance(e, tuple) and e[0] == "f"]
+        if fs:
+            return body.upvars.get(fs[0][1])
+    return None
+
+
 def strip_wrappers(t):
     """Look through refs, casts and derefs without field projections."""
     while True:
